@@ -64,7 +64,7 @@ func edgesMatchingD(b *ana.Builder, patterns []string, depth int) []ana.CondEdge
 				sub = plainEdges(edgesMatchingD(hb, patterns, depth+1))
 			}
 			for _, x := range xs {
-				if all && !mustPass(hb.Fn, x.Instr.Block(), sub) && !tailEstablishes(hb, x, o, patterns) {
+				if all && !exitMustPass(hb.Fn, x, sub) && !tailEstablishes(hb, x, o, patterns) {
 					all = false
 				}
 				if !all {
@@ -129,6 +129,15 @@ func mustPass(fn *ssa.Function, blk *ssa.BasicBlock, edges []ana.Edge) bool {
 		return false
 	}
 	return !ana.ReachableAvoiding(fn, edges)[blk]
+}
+
+// exitMustPass: every path to the exit uses one of the edges. For one case of a merged return (ana.Exit.Via) the
+// selecting edge itself may be the one.
+func exitMustPass(fn *ssa.Function, e ana.Exit, edges []ana.Edge) bool {
+	if e.Via != nil {
+		return edgeMustPass(fn, *e.Via, edges)
+	}
+	return mustPass(fn, e.Instr.Block(), edges)
 }
 
 // canReachBlock reports whether `to` is reachable from `from`.
@@ -1148,7 +1157,7 @@ func scanGates(c *Ctx, b *ana.Builder, loopOK func(b2 *ana.Builder, l *rangeLoop
 			scanDepth--
 			all := len(xs) > 0 && len(sub) > 0
 			for _, x := range xs {
-				all = all && mustPass(hb.Fn, x.Instr.Block(), sub)
+				all = all && exitMustPass(hb.Fn, x, sub)
 			}
 			if all {
 				c.R.Fn(ana.ShortFunc(hb.Fn))
@@ -1189,7 +1198,7 @@ func scanGates(c *Ctx, b *ana.Builder, loopOK func(b2 *ana.Builder, l *rangeLoop
 			if _, m := ana.MatchAny(v, "ind<+1>(0)", "ext#1(next(range(_)))", "bin<+>(ind<+1>(-1), 1)"); m {
 				continue // a position: never negative
 			}
-			if !mustPass(h, e.Instr.Block(), gate) {
+			if !exitMustPass(h, e, gate) {
 				good = false
 			}
 		}
